@@ -36,9 +36,11 @@ pub const CUSTOM_NAMES: [&str; 15] = [
     // case-folded copy is off in the original
     "\u{212a}", "X-\u{212b}x", "\u{1e9e}-h", "\u{130}", "\u{23a}\u{23e}", "Accept\u{212a}",
 ];
-pub const CL_VALUES: [&str; 14] = [
+pub const CL_VALUES: [&str; 17] = [
     "0", "1", "5", "007", "+5", "4294967295", "4294967296", "-1", "", "abc", "5 5", "12", "-0",
     "\u{ff11}",
+    // more characters than any 32-bit number has digits, yet small numbers
+    "00000000003", "0000000000000000000000005", "+0000000004",
 ];
 pub const MEDIA_VALUES: [&str; 14] = [
     "text/plain", "application/json", "text/html", "", "TEXT/PLAIN", "application/json2", "*/*",
